@@ -58,6 +58,12 @@ class Batches:
         plain = [b for b in SEEN if "".join(b["cost"]).isdigit() and 0 < int("".join(b["cost"])) < 2**16 and b["sub"] in ("debit", "reserve")]
         rnd.shuffle(plain)
         nb = 6 if self.tier == "quick" else 40
+        # a tariff that changes between two reads of the store while one request is served
+        k = 0
+        for a, b in [("2", "3"), ("3", "2"), ("1", "7"), ("10", "3"), ("4", "5")]:
+            for sub, used, money in (("debit", 6, 0), ("reserve", 0, 100), ("debit", 25, 0), ("reserve", 0, 59)):
+                yield dict(id="C08-flip%d" % k, cost=[], sub=sub, consumed=[], quota=[], steps=[1], flip=[a, b], used=used, money=money)
+                k += 1
         for i in range(nb):
             members = plain[i * 16:(i + 1) * 16]
             if len(members) < 2:
